@@ -76,7 +76,13 @@ def parseScript? (s : String) (len : Nat) : Option (List Serial.Ev) :=
     else if tok == "e" then some (acc ++ [Serial.Ev.fail])
     else match tok.toList with
       | '*' :: k => (String.ofList k).toNat?.map fun k => acc ++ List.replicate (len + 2) (Serial.Ev.give k)
-      | 'g' :: k => (String.ofList k).toNat?.map fun k => acc ++ [Serial.Ev.give k]
+      | 'g' :: k =>
+        match (String.ofList k).splitOn "^" with
+        | [k] => k.toNat?.map fun k => acc ++ [Serial.Ev.give k]
+        | [k, n] => match k.toNat?, n.toNat? with
+          | some k, some n => some (acc ++ List.replicate n (Serial.Ev.give k))
+          | _, _ => none
+        | _ => none
       | _ => none
 
 def isFault : Serial.Ev → Bool
@@ -102,26 +108,82 @@ def dotVerdict (A : Arr) (names : List String) (pruned : Bool) (text : String) :
     | none => some "not-utf8"
     | some t => checkDot A names pruned t
 
+/-! ### big diagrams: digest of the model's text, counts reported by the harness's own reader -/
+
+def fnvStep (h : UInt64) (b : UInt8) : UInt64 := (h ^^^ b.toUInt64) * 0x100000001b3
+
+def fnvChars (h : UInt64) (cs : List Char) : UInt64 :=
+  cs.foldl (fun h c => (String.utf8EncodeChar c).foldl fnvStep h) h
+
+/-- FNV-1a 64 and length of the UTF-8 bytes of `render ss`, statement by statement -/
+def digestStmts (ss : List Stmt) : UInt64 × Nat :=
+  ss.foldl (fun (acc : UInt64 × Nat) s =>
+    let cs := renderStmt s ++ ['\n']
+    (fnvChars acc.1 cs, acc.2 + (cs.foldl (fun n c => n + c.utf8Size) 0))) (0xcbf29ce484222325, 0)
+
+def hex16 (h : UInt64) : String :=
+  String.ofList ((List.range 16).map fun i => hexDigit ((h.toNat >>> (4 * (15 - i))) % 16))
+
+/-- the clauses of the property on the harness's read-back counts -/
+def checkBig (A : Arr) (pruned : Bool) (f : List String) : Option String :=
+  match f with
+  | [frame, unparsed, vertices, distinct, labelBad, edges, distinctEdges, dangling, wrong, entries, terminals, evalBad] =>
+    let inner := A.size - 2
+    let expEdges := (List.range' 2 inner).foldl (fun n p =>
+      let nd := A[p]!
+      n + (if pruned && nd.high == 0 then 0 else 1) + (if pruned && nd.low == 0 then 0 else 1)) 0
+    if frame != "1/1/1" then some "frame"
+    else if unparsed != "0" then some "unparsable"
+    else if vertices != toString inner then some "vertices:count"
+    else if distinct != vertices then some "vertices:ids-not-distinct"
+    else if labelBad != "0" then some "vertices:label"
+    else if edges != toString expEdges then some "edges:count"
+    else if distinctEdges != edges then some "edges:duplicate"
+    else if dangling != "0" then some "edges:undeclared-vertex"
+    else if wrong != "0" then some "edges:not-a-link"
+    else if entries != toString (A.size - 1) then some "entry-edge"
+    else if terminals != (if pruned then "1" else "0,1") then some "terminals"
+    else if evalBad != "0" then some "evaluation"
+    else none
+  | _ => some "fields"
+
 def handle (key : String) (ins obs : List String) : Verdict :=
   match key, ins, obs with
-  | "C20.write", [bdd, names, pruned, script], [text, status, got] =>
+  | "C20.big", [n, _total, _seed, pruned], arr :: digest :: bytes :: rest =>
+    match n.toNat?, parseArr? arr with
+    | some n, some A =>
+      let pruned := pruned == "1"
+      let names := (List.range n).map fun i => "n" ++ toString i
+      let model := match dotStmts A names pruned with
+        | .ok ss => let d := digestStmts ss; hex16 d.1 ++ " " ++ toString d.2
+        | _ => "panic"
+      let fail := if !wellFormed A || numVars A != n then some "harness built an invalid diagram" else checkBig A pruned rest
+      { agree := model == digest ++ " " ++ bytes, model, fail, nontrivial := true,
+        tags := ["big", if pruned then "pruned" else "full", s!"nodes{Nat.log2 (A.size + 1)}"] }
+    | _, _ => Verdict.bad "args"
+  | "C20.big", _, [_, "panic"] => { agree := false, model := "text", fail := some "outcome:panic", nontrivial := true, tags := ["big"] }
+  | "C20.write", [bdd, names, pruned, script], [text, status, got]
+  | "C20.writeinv", [bdd, names, pruned, script], [text, status, got] =>
     match parseArr? bdd, decNames? names with
     | some A, some names =>
       let pruned := pruned == "1"
       let mt := toDotString A names pruned
-      let len := match mt with | .ok t => (textBytes t).length | _ => 0
+      let len := match mt with | .ok t => (textBytes t).length | _ => 64 * A.size + 256
       match parseScript? script len with
       | none => Verdict.bad "script"
       | some sc =>
-        let model := match writeDotIO A names pruned sc, mt with
-          | .ok (ok, out), .ok t =>
-            encText 'x' t ++ (if ok then " ok =" else " err " ++ hexOfBytes out)
-          | _, _ => "panic panic ~"
-        -- the partial output under an error depends on how `format_args!` cuts the text; compared: text, status, and
-        -- the complete output when the call returned Ok
-        let agree := match writeDotIO A names pruned sc, mt with
-          | .ok (ok, _), .ok t => text == encText 'x' t && status == (if ok then "ok" else "err") && (!ok || got == "=")
-          | _, _ => text == "panic"
+        let mtext := match mt with | .ok t => encText 'x' t | _ => "panic"
+        -- the model follows the order of the code piece by piece, so the partial output under an error is compared too
+        let model := if key == "C20.write" && mtext == "panic" then "panic panic ~" else
+          mtext ++ (match writeDotIO A names pruned sc, mt with
+          | .ok (true, out), .ok t => if out == textBytes t then " ok =" else " ok " ++ hexOfBytes out
+          | .ok (true, out), _ => " ok " ++ hexOfBytes out
+          | .ok (false, out), _ => " err " ++ hexOfBytes out
+          | _, _ =>
+            -- a panic after the named prefix has been written: the sink holds that prefix
+            " panic " ++ hexOfBytes (if A.size = 0 || names.length != numVars A then [] else
+              (piecesOf (preamble A pruned ++ (namedPrefix A names).flatMap (nodeStmts A names pruned))).flatten))
+        let agree := model == " ".intercalate [text, status, got]
         let hasFault := sc.any isFault
         let fail := (dotVerdict A names pruned text) <|>
           (if text == "panic" then none
@@ -136,6 +198,21 @@ def handle (key : String) (ins obs : List String) : Verdict :=
           nontrivial := A.size > 2 && text != "panic",
           tags := ["write", status, if hasFault then "fault" else if sc.isEmpty then "whole" else "chunked",
             if len > 30000 then "big" else "small"] }
+    | _, _ => Verdict.bad "args"
+  | "C20.pieces", [bdd, names, pruned], [status, calls] =>
+    match parseArr? bdd, decNames? names with
+    | some A, some names =>
+      let pruned := pruned == "1"
+      -- the `write` calls into a sink that accepts everything: one per non-empty piece, up to the panic if there is one
+      let lens (ss : List Stmt) : String :=
+        let ls := ((piecesOf ss).map List.length).filter (· != 0)
+        if ls.isEmpty then "~" else ",".intercalate (ls.map toString)
+      let model :=
+        if A.size = 0 || names.length != numVars A then "panic ~"
+        else if (namedPrefix A names).length == (innerPtrs A).length then "ok " ++ lens (stmtsOf A names pruned)
+        else "panic " ++ lens (preamble A pruned ++ (namedPrefix A names).flatMap (nodeStmts A names pruned))
+      { agree := model == status ++ " " ++ calls, model, fail := none, nontrivial := A.size > 2,
+        tags := ["pieces", status] }
     | _, _ => Verdict.bad "args"
   | "C20.dot", [bdd, names, pruned], [text, written] =>
     match parseArr? bdd, decNames? names with
